@@ -73,7 +73,7 @@ package align
 // column j of b is some column of a
 //@ opaque func colsrc(b *align, a *align, j int) bool = exists s :: 0 <= s && s < a.length && colof(b, a, j, s)
 //@ func (*align).BuildBootstrap
-//@   props C10 C19
+//@   props C10 C19 C01
 //@   requires wfa(a)
 //@   ensures boot != nil && fresh(boot) && wfa(boot) && nrows(boot) == nrows(a) && boot.alphabet == a.alphabet
 //@   ensures nrows(a) > 0 ==> boot.length == floor(bootfrac(frac) * real(a.length))
@@ -111,7 +111,7 @@ package align
 //@ opaque func haswindow(b *align, a *align, length int) bool = exists start :: 0 <= start && start + length <= a.length && window(b, a, length, start)
 //@ opaque func pairsrc(b *align, a *align, c1 int, c2 int) bool = exists s1, s2 :: 0 <= s1 && s1 < a.length && 0 <= s2 && s2 < a.length && s1 != s2 && colof(b, a, c1, s1) && colof(b, a, c2, s2)
 //@ func (*align).RandSubAlign
-//@   props C10 C19
+//@   props C10 C19 C01
 //@   requires wfa(a)
 //@   ensures (result1 == nil) == (0 < length && length <= a.length)
 //@   ensures result1 != nil ==> result0 == nil
@@ -157,7 +157,7 @@ package align
 //@ opaque func rowsrc(b *seqbag, sb *seqbag, k int) bool = exists r :: 0 <= r && r < nrows(sb) && rowname(b, k) == rowname(sb, r) && rowlen(b, k) == rowlen(sb, r) && (forall c :: 0 <= c && c < rowlen(sb, r) ==> cell(b, k, c) == cell(sb, r, c))
 //@ pure func rowis(b *seqbag, sb *seqbag, k int, r int) bool = rowname(b, k) == rowname(sb, r) && rowlen(b, k) == rowlen(sb, r) && (forall c :: 0 <= c && c < rowlen(sb, r) ==> cell(b, k, c) == cell(sb, r, c))
 //@ func (*seqbag).sampleSeqBag
-//@   props C10 C19
+//@   props C10 C19 C01
 //@   requires wf(sb)
 //@   ensures (result1 == nil) == (1 <= nb && nb <= nrows(sb))
 //@   ensures result1 != nil ==> result0 == nil
